@@ -20,7 +20,9 @@
 (* range): pow2 = 2^k, pow2p = 2^k + 1ulp, pow2m = 2^k - 1ulp (all ones in *)
 (* the binade below), ones = all ones, half = random high part, then 1 and *)
 (* zeros in the low s bits (a tie of the splitter / of the sum when the    *)
-(* gap is right), alt = 1010.., rand = drawn.                              *)
+(* gap is right), alt = 1010.., rand = drawn, onehalf = 1 + 2^-s (s + 1    *)
+(* significant bits: one more than a half can hold), lowrand = 1, zeros,   *)
+(* then drawn bits in the low p - s positions (just above a power of two). *)
 (* Magnitude classes: sub (a subnormal binade, drawn), minnorm (2^emin),   *)
 (* one (2^0: the splitter's scaling switch), sqrtmax (exponent around      *)
 (* emax/2: product overflow edge), xmax (the splitter's clamp threshold    *)
@@ -37,8 +39,8 @@ Fmts == {"float16", "float32", "float64"}
 P(fmt) == CASE fmt = "float16" -> 11 [] fmt = "float32" -> 24 [] fmt = "float64" -> 53
 S(fmt) == (P(fmt) + 1) \div 2
 
-Pats == {"pow2", "pow2p", "pow2m", "ones", "half", "alt", "rand"}
-FewPats == IF Quick THEN {"pow2", "pow2m", "half", "rand"} ELSE Pats
+Pats == {"pow2", "pow2p", "pow2m", "ones", "half", "alt", "rand", "onehalf", "lowrand"}
+FewPats == IF Quick THEN {"pow2", "pow2m", "half", "rand", "onehalf"} ELSE Pats
 Mags == {"sub", "minnorm", "one", "sqrtmax", "xmax", "largestC", "largest"}
 Signs == IF Quick THEN {<<0, 0>>, <<0, 1>>} ELSE {<<0, 0>>, <<0, 1>>, <<1, 0>>, <<1, 1>>}
 
